@@ -765,10 +765,23 @@ func (am argsList) copyAndAdd(name string) (argsList, error) {
 type GeneratorContext struct {
 	am argsList
 	cm argsList
+	// pushed is the number of unnamed values which are stored on
+	// the stack behind the variables listed in am
+	pushed int
 }
 
 func (c GeneratorContext) addLocalVar(name string) (GeneratorContext, error) {
-	newAm, err := c.am.copyAndAdd(name)
+	am := c.am
+	if c.pushed > 0 {
+		// The new variable is stored behind the values already pushed.
+		// The names are not valid identifiers, so the slots can not be accessed by name
+		am = make(argsList, len(c.am), len(c.am)+c.pushed+1)
+		copy(am, c.am)
+		for i := 0; i < c.pushed; i++ {
+			am = append(am, fmt.Sprintf("\x00pushed%d", len(am)))
+		}
+	}
+	newAm, err := am.copyAndAdd(name)
 	if err != nil {
 		return GeneratorContext{}, err
 	}
@@ -781,16 +794,8 @@ func (c GeneratorContext) addLocalVar(name string) (GeneratorContext, error) {
 // arguments already pushed, which has to be taken into account when the stack index
 // of the variable is calculated.
 func (c GeneratorContext) addPushed(n int) GeneratorContext {
-	if n == 0 {
-		return c
-	}
-	newAm := make(argsList, len(c.am), len(c.am)+n)
-	copy(newAm, c.am)
-	for i := 0; i < n; i++ {
-		// the name is not a valid identifier, so the slot can not be accessed by name
-		newAm = append(newAm, fmt.Sprintf("\x00pushed%d", len(newAm)))
-	}
-	return GeneratorContext{am: newAm, cm: c.cm}
+	c.pushed += n
+	return c
 }
 
 type Func[V any] func(Stack[V]) (V, error)
